@@ -143,11 +143,16 @@ def correspond(ctx):
                 if rng.random() < 0.3:
                     # a datetime carrying a UTC offset: the same INSTANT is stored (and read back as naive UTC)
                     off = rng.choice([0, 60, -60, 120, 330, -570, 14 * 60, -14 * 60, rng.randint(-14 * 60, 14 * 60)])
+                    if rng.random() < 0.2:
+                        # the two ends of the calendar, pushed over by the offset
+                        v, off = rng.choice([(dt.datetime(1, 1, 1, 0, 0, 0), 14 * 60), (dt.datetime(1, 1, 1, 5, 30, 0), 330 + 1),
+                                             (dt.datetime(9999, 12, 31, 23, 59, 59), -14 * 60), (dt.datetime(9999, 12, 31, 12, 0, 0), -12 * 60 - 1)])
                     v = v.replace(tzinfo=dt.timezone(dt.timedelta(minutes=off)))
                     try:
                         want = v.astimezone(dt.timezone.utc).replace(tzinfo=None, microsecond=0)
                     except OverflowError:
                         want = None
+                    xml_before = etree.tostring(cp._element)
                     try:
                         setattr(cp, name, v)
                         outcome = "ok"
@@ -159,6 +164,9 @@ def correspond(ctx):
                     el = {"created": cp._element.created, "last_printed": cp._element.lastPrinted, "modified": cp._element.modified}[name]
                     add(f"c18.fmtaware {v.year} {v.month} {v.day} {v.hour} {v.minute} {v.second} {off}",
                         enc(el.text) if outcome == "ok" else ("overflow" if outcome == "ValueError" else outcome), ("fmtaware", name, str(v)))
+                    if outcome != "ok" and etree.tostring(cp._element) != xml_before:
+                        ctx.fail("rejected-date-changed-xml", f"{name} = {v!r} raised {outcome} but the core-properties part changed: "
+                                 f"{etree.tostring(cp._element)[-160:]!r}", {"prop": name, "value": str(v)})
                     if want is None:
                         if outcome != "ValueError":
                             ctx.fail("date-aware-out-of-range", f"{name} = {v!r} (outside years 1..9999 as UTC): {outcome}, expected ValueError", {"prop": name, "value": str(v)})
